@@ -114,12 +114,26 @@ func loadVariants() []variant {
 }
 
 func (v variant) relevant(prop string) bool {
+	listed := false
 	for _, p := range v.Props {
 		if p == prop || p == "all" {
-			return true
+			listed = true
 		}
 	}
-	return false
+	if !listed {
+		return false
+	}
+	// a breaking variant that names the rules expected to report it is an expectation only for the properties
+	// those rules belong to (it may list further properties its breakage also concerns)
+	if v.Kind == "breaking" && len(v.Expect) > 0 {
+		for _, e := range v.Expect {
+			if strings.HasPrefix(e, prop+".") {
+				return true
+			}
+		}
+		return false
+	}
+	return true
 }
 
 type variantResult struct {
